@@ -9,7 +9,7 @@ EXPLANATION = (
     "Must-pass-through and data-dependence rules on ArpRouter::demux: the forwarding task is created exactly once, "
     "outside any loop, dominated by a decrement-by-one of the header's TTL and by the branch on which the decremented "
     "TTL is non-zero; the re-serialised header is the decremented copy; next hop and interface originate from "
-    "IpTable::get_recipient(header.destination) and a missing route returns without forwarding; the task performs one "
+    "IpTable::get_recipient(header.destination) and a missing route returns without forwarding and a found route always leads to the forwarding task; the task performs one "
     "send_pci. TTL-0 arrival must not panic (shared with C14). Decides these structural clauses for all inputs; "
     "multi-hop delivery and network silence are runtime behaviour and not decided.")
 ASSUMPTIONS = []
@@ -180,6 +180,16 @@ def run(ctx):
             cont = K.skip_false_edges(dm, dep.switch_target(dm, nb, 0))
             if not g.dominates(cont, sbb):
                 probs.append("forwarding is reachable when no route matches")
+            # ... and every datagram for which a route was found is forwarded: no other way out of demux between the
+            # route and the forwarding task (such as "do not send back out of the arrival interface")
+            if not g.all_paths_through(cont, g.returns, [sbb]):
+                ret_path = g.path(cont, g.returns[0], removed=[sbb]) if g.returns else None
+                where = ""
+                if ret_path:
+                    for x in ret_path:
+                        if dm.term(x)[0] == "switch":
+                            where = " (decided at %s)" % K.loc_of_block(dm, x)
+                probs.append("a datagram with a live TTL and a matching route can leave demux without being forwarded%s: it is silently dropped although the routing table says where it goes" % where)
     # the task resolves that pair on that slot and sends to the MAC resolved
     tp = K.calls_to(task, K.SEND_PCI)
     rs = K.calls_to(task, "arp::{impl#0}::resolve")
